@@ -70,6 +70,7 @@ let parse_read (toks : string list) : read =
   | [ "iterr"; s; e; incl; asc ] -> RIter (obytes_of_tok s, obytes_of_tok e, bool_of_tok incl, bool_of_tok asc)
   | [ "iterate" ] -> RIter (None, None, false, true)
   | [ "hash" ] -> RHash
+  | [ "touch"; _ ] -> RTouch
   | _ -> failwith ("bad read: " ^ String.concat " " toks)
 
 let parse_target (s : string) : target =
@@ -83,6 +84,7 @@ let parse_op (toks : string list) : op =
   | [ "save" ] -> OSave
   | [ "rollback" ] -> ORollback
   | [ "reopen" ] -> OReopen
+  | [ "reopen"; _ ] -> OReopen
   | [ "load"; v ] -> OLoad (z_of_string v)
   | [ "prune"; v ] -> OPrune (z_of_string v)
   | [ "lvfo"; v ] -> OLvfo (z_of_string v)
@@ -165,17 +167,104 @@ let classify_m1 (st : mstate) (toks : string list) (model : string) (impl : stri
          && List.exists (fun x -> stale_root st x) extra then finding else None
   | _ -> None
 
+(* --- expected raw store, computed from the model forest (M2 view of M1) --- *)
+let node_meta (t : node) : meta = match t with Leaf (_, _, m) -> m | Inner (_, _, _, m, _, _) -> m
+let key_str (m : meta) : string = Printf.sprintf "%d.%d" (int_of_z m.ver) (int_of_z m.nonce)
+
+let rec collect_nodes (t : node) (acc : ((int * int) * string) list) : ((int * int) * string) list =
+  let m = node_meta t in
+  let k = (int_of_z m.ver, int_of_z m.nonce) in
+  if List.mem_assoc k acc then acc
+  else
+    match t with
+    | Leaf (key, v, _) -> (k, "N:L," ^ hex_of_bytes key ^ "," ^ hex_of_bytes v) :: acc
+    | Inner (key, h, sz, _, l, r) ->
+        let acc = (k, Printf.sprintf "N:I,%d,%d,%s,%s,%s,%s" (int_of_z h) (int_of_z sz) (hex_of_bytes key)
+                        (hex_of_bytes m.hs) (key_str (node_meta l)) (key_str (node_meta r))) :: acc in
+        collect_nodes r (collect_nodes l acc)
+
+let expected_nodes (st : mstate) : string =
+  let acc = List.fold_left (fun acc (_, r) -> match r with Some t -> collect_nodes t acc | None -> acc) [] st.forest in
+  let acc = List.fold_left (fun acc (v, r) ->
+      let v = int_of_z v in
+      match r with
+      | None -> ((v, 1), "E") :: acc
+      | Some t ->
+          let m = node_meta t in
+          if int_of_z m.ver = v && int_of_z m.nonce = 1 then acc else ((v, 1), "R:" ^ key_str m) :: acc) acc st.forest in
+  let sorted = List.stable_sort (fun (a, _) (b, _) -> compare a b) acc in
+  "an[" ^ String.concat ";" (List.map (fun ((v, n), d) -> Printf.sprintf "%d.%d=%s" v n d) sorted) ^ "]other=0"
+
+let rec node_elems (t : node) (acc : (bytes * bytes) list) : (bytes * bytes) list =
+  match t with
+  | Leaf (k, v, _) -> (k, v) :: acc
+  | Inner (_, _, _, _, l, r) -> node_elems l (node_elems r acc)
+
+let expected_fast (st : mstate) : string =
+  let rec last = function [] -> None | [ x ] -> Some x | _ :: r -> last r in
+  match last st.forest with
+  | None -> "af(1.1.0-0;[])"
+  | Some (v, r) ->
+      let l = (match r with Some t -> node_elems t [] | None -> []) in
+      Printf.sprintf "af(1.1.0-%d;[%s])" (int_of_z v)
+        (String.concat "," (List.map (fun (k, v) -> hex_of_bytes k ^ "=" ^ hex_of_bytes v) l))
+
+let cfg_fast (params : string list) : bool =
+  let cfg = header_param params "cfg" "" in
+  List.mem "fast=true" (String.split_on_char ',' cfg)
+
 let make_m1 (params : string list) : machine =
   let iv = header_param params "iv" "-" in
   let st = ref (if iv = "-" then m_init Z0 false else m_init (z_of_string iv) true) in
   let prev = ref !st in
+  let fast = ref (cfg_fast params) in
   { step = (fun toks ->
-        let o = parse_op toks in
         prev := !st;
-        let s', x = m_step !st o in
-        st := s';
-        show_out x);
-    classify = (fun toks model impl -> classify_m1 !prev toks model impl) }
+        match toks with
+        | [ "reopenat"; v; f ] ->
+            fast := (f = "fast=true");
+            let s1, x1 = m_step !st OReopen in
+            (match x1 with
+             | XOk -> let s2, x2 = m_step s1 (OLoad (z_of_string v)) in st := s2; show_out x2
+             | _ -> st := s1; "err")
+        | [ "audit"; "nodes" ] -> expected_nodes !st
+        | [ "audit"; "fast" ] -> if !fast then expected_fast !st else "*"
+        | [ "reopen"; f ] when (f = "fast=true" || f = "fast=false") && (fast := (f = "fast=true"); false) -> ""
+        | [ "r"; t; "proof"; k ] ->
+            (* C03 oracle: the expected kind comes from the model's lookup; verification and the
+               negative checks are done by the real ICS-23 verifier inside the harness *)
+            let tg = parse_target t in
+            let q r = snd (m_step !st (ORead (tg, r))) in
+            (match q RSize with
+             | XErr -> "err"
+             | XInt z when int_of_z z = 0 -> "*"
+             | _ ->
+                 (match q (RGet (bytes_of_tok k)) with
+                  | XBytes (Some _) -> "pf(mem,t,t)"
+                  | _ -> "pf(non,t,t)"))
+        | _ ->
+            let o = parse_op toks in
+            let s', x = m_step !st o in
+            st := s';
+            show_out x);
+    classify = (fun toks model impl ->
+        match toks with
+        | [ "r"; t; "proof"; k ] ->
+            (* C03-empty-value: ICS-23 rejects empty values, so a leaf with an empty value has no
+               verifying existence proof, neither as the proved key nor as a bracketing neighbour *)
+            let tg = parse_target t in
+            let q r = snd (m_step !prev (ORead (tg, r))) in
+            let empty_at i =
+              (match q (RGetByIndex (z_of_int i)) with
+               | XPair (_, XBytes (Some [])) -> true
+               | _ -> false) in
+            (match q (RGetWithIndex (bytes_of_tok k)) with
+             | XPair (_, XBytes (Some [])) -> Some "C03-empty-value"
+             | XPair (XInt i, XBytes None) ->
+                 let i = int_of_z i in
+                 if empty_at (i - 1) || empty_at i then Some "C03-empty-value" else None
+             | _ -> None)
+        | _ -> classify_m1 !prev toks model impl) }
 
 let machines : (string * (string list -> machine)) list ref = ref [ ("m1", make_m1) ]
 
@@ -223,7 +312,7 @@ let () =
              (match expected with
               | None -> if echo then Printf.printf "%s => %s\n" opstr got else incr skipped
               | Some e ->
-                  if e <> got then begin
+                  if e <> got && not (got = "*" && not (starts_with "panic" e)) then begin
                     match (if List.length !known = 0 then None else m.classify (split_ws opstr) got e) with
                     | Some f when List.mem f !known ->
                         incr nknown;
